@@ -99,6 +99,18 @@ Gen ==
         /\ oh' = <<Ev.snap.h, Ev.snap.ph>>
         /\ UNCHANGED stack
 
+\* the check and validity queries alone
+Chk ==
+  /\ Ev.ev = "chk"
+  /\ Record(
+       << <<Ev.chk = <<InCheck(pos.bd, "w"), InCheck(pos.bd, "b"), InCheck(pos.bd, pos.stm)>>, "C05",
+            "is_in_check(white), is_in_check(black), is_current_in_check",
+            ToString(<<InCheck(pos.bd, "w"), InCheck(pos.bd, "b"), InCheck(pos.bd, pos.stm)>>)>>,
+          <<Ev.valid = IsValid(pos), "C05", "is_valid", ToString(IsValid(pos))>> >>
+       \o SnapChecks(pos, Ev.snap, "C03"))
+  /\ ntr' = IF InCheck(pos.bd, pos.stm) THEN ntr \cup {l} ELSE ntr
+  /\ UNCHANGED <<pos, lg, stack, oh>>
+
 KindChar == <<"p", "n", "b", "r", "q", "k">>
 \* the move record's public description (beyond the listed properties: X-move)
 MoveDesc(m) ==
@@ -299,7 +311,7 @@ TextEvents == BareDone \/ FindUci \/ UciToPgn \/ SanAll \/ MakeUci \/ MakeAllUci
 Next ==
   /\ l <= Len(Rec)
   /\ l' = l + 1
-  /\ \/ (Load \/ Gen \/ Make \/ Unmake \/ Panic \/ TextEvents) /\ UNCHANGED sct
+  /\ \/ (Load \/ Gen \/ Chk \/ Make \/ Unmake \/ Panic \/ TextEvents) /\ UNCHANGED sct
      \/ PgnToBb
 
 Init ==
